@@ -1,6 +1,302 @@
-//! C05 — monitor not written yet.
-use crate::ctx::Ctx;
+//! C05 — a new pay token is issued only against a valid revocation of the previous state.
+//!
+//! At the completion point of real payments, a matrix of candidate (pair, blinding factor)
+//! combinations is offered to `complete_payment`; the oracle recomputes the Pedersen opening from
+//! the commitment atom of the accepted pay proof. Second part: every byte string that decodes as
+//! a revocation pair has lock = SHA3(secret || index) as a canonical scalar.
+
+use crate::ctx::{guard, hex, Ctx};
+use crate::fixtures::{self, Merchant};
+use crate::props::util::*;
+use crate::refs::*;
+use crate::session::{amount, Sess, Stage};
+use crate::tracer::trace;
+use crate::wire::{dec, enc};
+use bls12_381::{G1Affine, Scalar};
+use ff::Field;
+use group::Curve;
+use rand_core::{CryptoRng, RngCore};
+use serde_json::json;
+use zkabacus_crypto::{self as zk, revlock::RevocationPair};
+
+struct Candidate {
+    kind: String,
+    pair: Vec<u8>,
+    bf: Vec<u8>,
+}
+
+fn pair_from_state(s: &Stage, prefix: &str) -> Result<Vec<u8>, String> {
+    let t = match s {
+        Stage::Ready(x) => trace(x)?,
+        Stage::Locked(x) => trace(x)?,
+        Stage::Started(x) => trace(x)?,
+        Stage::Inactive(x) => trace(x)?,
+        _ => return Err("no state".into()),
+    };
+    let mut b = t.fget(&format!("{}/revocation_pair/lock", prefix))?;
+    b.extend(t.fget(&format!("{}/revocation_pair/secret/secret", prefix))?);
+    b.extend(t.fget(&format!("{}/revocation_pair/secret/index", prefix))?);
+    Ok(b)
+}
+
+/// reference: does (lock of pair, bf) open `com` under (h, g)?
+fn opens(m: &Merchant, com: &G1Affine, pair: &[u8], bf: &[u8]) -> Option<bool> {
+    let lock = sc(&pair[..32])?;
+    let bf = sc(bf)?;
+    let r = pedersen_ref_g1(&m.rev_h, &[m.rev_g], &[lock], &bf);
+    Some(r.to_affine() == *com)
+}
+
+fn run_channel(c: &mut Ctx, m: &'static Merchant, name: &str, foreign: &[(String, Vec<u8>, Vec<u8>)]) {
+    let mut rng = c.rng(name);
+    let ctxb = name.as_bytes().to_vec();
+    let cust = 1000 + (rng.next_u64() % 1000);
+    let merch = rng.next_u64() % 1000;
+    let mut s = match Sess::open(m, &mut rng, cust, merch, &ctxb) {
+        Ok(s) => s,
+        Err(e) => return c.inconclusive(&e),
+    };
+    let mut earlier: Vec<(Vec<u8>, Vec<u8>)> = vec![]; // (pair, bf) of earlier payments of this channel
+    let npay = c.tier.pick(3usize, 8);
+    for p in 0..npay {
+        let a = (rng.next_u64() % 50) as i64 - 20;
+        let a = if ledger_apply(s.ledger.0, s.ledger.1, a).is_ok() { a } else { 0 };
+        let pa = amount(a).unwrap();
+        let (nonce, proof) = match s.c_start(&mut rng, pa, &ctxb) {
+            Ok(Ok(x)) => x,
+            _ => return c.inconclusive("C05: honest start refused"),
+        };
+        let sig = match s.m_allow(&mut rng, pa, &nonce, &proof, &ctxb) {
+            Ok(Some(x)) => x,
+            _ => return c.inconclusive("C05: honest pay proof refused"),
+        };
+        // the commitment the merchant stored is the atom of the accepted proof
+        let com = dec::<zk::PayProof>(&proof).and_then(|pp| trace(&pp)).and_then(|t| t.fget("old_revocation_lock_proof/commitment"));
+        let Some(com) = com.ok().and_then(|b| g1(&b)) else { return c.inconclusive("C05: cannot read the commitment atom") };
+        let (pair, bf) = match s.c_lock(&sig) {
+            Ok(Some(x)) => x,
+            _ => return c.inconclusive("C05: honest closing signature refused"),
+        };
+        // candidate matrix
+        let mut cands: Vec<Candidate> = vec![];
+        let bfs = sc(&bf).unwrap_or(Scalar::zero());
+        let newer = pair_from_state(&s.stage, "state").unwrap_or_default(); // the new state's pair
+        cands.push(Candidate { kind: "right-pair/bf+1".into(), pair: pair.clone(), bf: (bfs + Scalar::one()).to_bytes().to_vec() });
+        cands.push(Candidate { kind: "right-pair/bf-random".into(), pair: pair.clone(), bf: Scalar::random(&mut rng).to_bytes().to_vec() });
+        cands.push(Candidate { kind: "right-pair/bf-zero".into(), pair: pair.clone(), bf: vec![0u8; 32] });
+        cands.push(Candidate { kind: "right-pair/bf-negated".into(), pair: pair.clone(), bf: (-bfs).to_bytes().to_vec() });
+        if newer.len() == 65 {
+            cands.push(Candidate { kind: "pair-of-new-state/right-bf".into(), pair: newer, bf: bf.clone() });
+        }
+        for (i, (ep, eb)) in earlier.iter().enumerate() {
+            cands.push(Candidate { kind: format!("pair-of-earlier-payment{}/right-bf", i % 2), pair: ep.clone(), bf: bf.clone() });
+            cands.push(Candidate { kind: format!("right-pair/bf-of-earlier-payment{}", i % 2), pair: pair.clone(), bf: eb.clone() });
+            cands.push(Candidate { kind: format!("earlier-pair-and-its-bf{}", i % 2), pair: ep.clone(), bf: eb.clone() });
+        }
+        for (k, fp, fb) in foreign {
+            cands.push(Candidate { kind: format!("pair-of-{}/right-bf", k), pair: fp.clone(), bf: bf.clone() });
+            cands.push(Candidate { kind: format!("pair-and-bf-of-{}", k), pair: fp.clone(), bf: fb.clone() });
+        }
+        let fresh = enc(&zk::internal::test_new_revocation_pair(&mut rng));
+        cands.push(Candidate { kind: "fresh-pair/right-bf".into(), pair: fresh, bf: bf.clone() });
+        // wrong attempts in a row, then the right one
+        let mut refusals = 0;
+        for cand in &cands {
+            let expect = match opens(m, &com, &cand.pair, &cand.bf) {
+                Some(x) => x,
+                None => continue,
+            };
+            c.eval();
+            c.distinct(&format!("cand/{}/{}", cand.kind, p));
+            c.count(&format!("candidates[{}]", cand.kind.split('/').next().unwrap_or("")), 1);
+            match s.m_complete(&mut rng, &cand.pair, &cand.bf) {
+                Ok(Some(_tok)) => {
+                    if !expect {
+                        return c.violation(
+                            &format!("C05 token-issued-without-valid-opening candidate={}", cand.kind),
+                            json!({"candidate": cand.kind, "pair": hex(&cand.pair), "bf": hex(&cand.bf), "commitment": hex(&com.to_compressed())}),
+                        );
+                    }
+                    return c.inconclusive("C05: a wrong candidate opened the commitment (negligible coincidence)");
+                }
+                Ok(None) => {
+                    if expect {
+                        return c.violation(&format!("C05 valid-opening-refused candidate={}", cand.kind), json!({"candidate": cand.kind}));
+                    }
+                    refusals += 1;
+                }
+                Err(e) => return c.inconclusive(&format!("C05: candidate could not be offered: {}", e)),
+            }
+        }
+        c.count("refusals_before_right_pair", refusals);
+        // the pending payment must have survived all refusals
+        c.eval();
+        if opens(m, &com, &pair, &bf) != Some(true) {
+            return c.violation("C05 honest-pair-does-not-open-commitment", json!({"payment": p}));
+        }
+        let tok = match s.m_complete(&mut rng, &pair, &bf) {
+            Ok(Some(t)) => t,
+            Ok(None) => return c.violation("C05 right-pair-refused-after-refusals", json!({"refusals": refusals, "payment": p})),
+            Err(e) => return c.violation("C05 pending-payment-lost", json!({"error": e, "refusals": refusals})),
+        };
+        match s.c_unlock(&tok) {
+            Ok(true) => c.count("payments_completed_after_refusals", 1),
+            _ => return c.violation("C05 token-after-refusals-invalid", json!({"refusals": refusals, "payment": p})),
+        }
+        earlier.push((pair, bf));
+    }
+    c.sample(json!({"channel": name, "payments": npay, "candidate_kinds_per_payment": 10 + 2 * foreign.len()}));
+}
+
+fn decoder_part(c: &mut Ctx) {
+    let chunks = c.tier.pick(8usize, 64);
+    let per = c.tier.pick(600usize, 3000);
+    for k in 0..chunks {
+        let name = format!("decode/{}", k);
+        c.case(&name, |c| {
+            let mut rng = c.rng(&name);
+            let mut decoded = 0;
+            let mut rejected = 0;
+            for i in 0..per {
+                let base = enc(&zk::internal::test_new_revocation_pair(&mut rng));
+                let mut b = base.clone();
+                let kind = match i % 8 {
+                    0 => "honest",
+                    1 => {
+                        b[..32].copy_from_slice(&Scalar::random(&mut rng).to_bytes());
+                        "lock-random"
+                    }
+                    2 => {
+                        b[32..64].copy_from_slice(&Scalar::random(&mut rng).to_bytes());
+                        "secret-random"
+                    }
+                    3 => {
+                        b[64] = b[64].wrapping_add(1 + (rng.next_u32() % 255) as u8);
+                        "index-changed"
+                    }
+                    4 => {
+                        let pos = (rng.next_u32() as usize) % 64;
+                        b[pos] ^= 1 << (rng.next_u32() % 8);
+                        "bit-flip"
+                    }
+                    5 => {
+                        // a secret whose digest at this index is not a canonical scalar, with the
+                        // digest itself offered as lock (only decodable if the check is missing)
+                        let mut secret;
+                        let mut idx;
+                        loop {
+                            secret = Scalar::random(&mut rng).to_bytes();
+                            idx = (rng.next_u32() % 256) as u8;
+                            if revlock_ref(&secret, idx).is_none() {
+                                break;
+                            }
+                        }
+                        b[32..64].copy_from_slice(&secret);
+                        b[64] = idx;
+                        b[..32].copy_from_slice(&Scalar::random(&mut rng).to_bytes());
+                        "digest-not-canonical"
+                    }
+                    6 => {
+                        // consistent pair recomputed by the reference at a later index
+                        let secret = Scalar::random(&mut rng).to_bytes();
+                        let mut idx = (rng.next_u32() % 200) as u8;
+                        let lock = loop {
+                            if let Some(l) = revlock_ref(&secret, idx) {
+                                break l;
+                            }
+                            idx = idx.wrapping_add(1);
+                        };
+                        b[..32].copy_from_slice(&lock.to_bytes());
+                        b[32..64].copy_from_slice(&secret);
+                        b[64] = idx;
+                        "reference-pair-any-index"
+                    }
+                    _ => {
+                        // lock and secret exchanged
+                        let (l, s) = (base[..32].to_vec(), base[32..64].to_vec());
+                        b[..32].copy_from_slice(&s);
+                        b[32..64].copy_from_slice(&l);
+                        "lock-secret-swapped"
+                    }
+                };
+                c.eval();
+                if i < 64 {
+                    c.distinct(&format!("decode/{}/{}", kind, i));
+                } else {
+                    c.distinct(&format!("decode/{}", hex(&b[..16])));
+                }
+                let must_decode = kind == "honest" || kind == "reference-pair-any-index";
+                match guard(|| dec::<RevocationPair>(&b)) {
+                    Err(_) => c.count("decode_panics(C16)", 1),
+                    Ok(Ok(pair)) => {
+                        decoded += 1;
+                        let sec = pair.revocation_secret().as_bytes();
+                        let recomputed = revlock_ref(&sec[..32], sec[32]);
+                        let ok = recomputed.map(|l| l.to_bytes() == pair.revocation_lock().as_bytes()).unwrap_or(false);
+                        if !ok {
+                            c.violation(
+                                &format!("C05 decoded-pair-lock-is-not-hash mutation={}", kind),
+                                json!({"bytes": hex(&b), "mutation": kind}),
+                            );
+                        }
+                        if enc(&pair) != b {
+                            c.violation(&format!("C05 decoded-pair-reencodes-differently mutation={}", kind), json!({"bytes": hex(&b)}));
+                        }
+                    }
+                    Ok(Err(e)) => {
+                        rejected += 1;
+                        if must_decode {
+                            c.violation(&format!("C05 valid-pair-rejected mutation={}", kind), json!({"bytes": hex(&b), "error": e}));
+                        }
+                    }
+                }
+                c.count(&format!("pair_encodings[{}]", kind), 1);
+            }
+            c.count("pairs_decoded", decoded);
+            c.count("pairs_rejected", rejected);
+        });
+    }
+}
 
 pub fn run(c: &mut Ctx) {
-    c.inconclusive("C05: monitor not written yet");
+    c.note("rule", json!("for every accepted payment of real histories: candidates = right pair x {bf+1, random, zero, negated, bf of earlier payments}, pair of the new state / of earlier payments / of other channels and sessions / fresh x right bf, foreign pair with its own bf, several wrong ones in a row and then the right one (which must still complete and yield a token the customer accepts); oracle = recomputed Pedersen opening of the commitment atom of the accepted pay proof. Decoder: honest pair encodings with lock / secret / index altered, bit flips, digests that are not canonical scalars, reference-recomputed pairs at any index. Distinct = distinct (candidate kind, payment) and distinct mutated encodings."));
+    let m = match fixtures::merchant(c.seed, "m0") {
+        Ok(m) => m,
+        Err(e) => return c.inconclusive(&e),
+    };
+    let m2 = match fixtures::merchant(c.seed, "m1") {
+        Ok(m) => m,
+        Err(e) => return c.inconclusive(&e),
+    };
+    // foreign material: lock messages of another channel (same merchant) and another session (other merchant)
+    let foreign = {
+        let mut rng = Ctx::fixture_rng(c.seed, "c05/foreign");
+        let mut v = vec![];
+        for (k, mm) in [("other-channel", m), ("other-merchant-session", m2)] {
+            match Sess::open(mm, &mut rng, 100, 100, b"foreign") {
+                Ok(mut s) => {
+                    let _ = s.pay(&mut rng, amount(3).unwrap(), b"foreign");
+                    let pair = s.log.iter().find(|r| r.kind == "revocation_pair").map(|r| r.bytes.clone());
+                    let bf = s.log.iter().find(|r| r.kind == "revocation_blinding_factor").map(|r| r.bytes.clone());
+                    if let (Some(p), Some(b)) = (pair, bf) {
+                        v.push((k.to_string(), p, b));
+                    }
+                }
+                Err(e) => return c.inconclusive(&e),
+            }
+        }
+        v
+    };
+    let nch = c.tier.pick(32usize, 300);
+    for i in 0..nch {
+        let name = format!("channel{}", i);
+        c.case(&name, |c| {
+            if let Err(p) = guard(|| run_channel(c, m, &name, &foreign)) {
+                c.violation(&format!("C05 panic loc={}", repo_rel(&p.location)), json!({"panic": p.message}));
+            }
+        });
+    }
+    decoder_part(c);
+    let _ = |r: &mut dyn RngCore| r.next_u32();
+    fn _assert<T: CryptoRng>() {}
 }
